@@ -65,6 +65,12 @@ def check_case(ctx, cs):
                 got = r[0] if pd == 1 else r[0][0]
                 if not close_seq(got, exp):
                     ctx.violate(cname + ".derivatives(order=0)", tg, small, {"expected": fl(exp), "got": got})
+            # the order defaults to zero: the call without it returns the point alone
+            ok, r = _try(ctx, cname + ".derivatives()", tg, small, lambda: obj.derivatives(*prm))
+            if ok:
+                shape_ok = (len(r) == 1) if pd == 1 else (len(r) == 1 and len(r[0]) == 1)
+                if not shape_ok or not close_seq(r[0] if pd == 1 else r[0][0], exp):
+                    ctx.violate(cname + ".derivatives()", tg, small, {"expected": fl(exp), "got": r})
         # evaluator called directly on the data dictionary
         ok, r = _try(ctx, "evaluators.evaluate", tg, small, lambda: obj.evaluator.evaluate(obj.data, start=arg, stop=arg))
         if ok and not close_seq(r, [exp]):
